@@ -325,7 +325,8 @@ class BaseCommand(FlockMixin, ABC):
         exit_code = 0
         try:
             exit_code = await self.run()
-        except KeyboardInterrupt:
+        # asyncio.run() delivers Ctrl-C as a cancellation of the main task.
+        except (KeyboardInterrupt, asyncio.CancelledError):
             exit_code = 128 + signal.SIGINT
         # Ensure that META.json gets written in the case a
         # command calls sys.exit().
